@@ -91,8 +91,11 @@ impl NamedGroup {
             NamedGroup::Secp521r1 => Some(521),
             NamedGroup::BrainpoolP256r1 => Some(256),
             NamedGroup::BrainpoolP384r1 => Some(384),
-            NamedGroup::BrainpoolP512r1 => Some(521),
+            NamedGroup::BrainpoolP512r1 => Some(512),
             NamedGroup::EcdhX25519 => Some(253),
+            NamedGroup::BrainpoolP256r1tls13 => Some(256),
+            NamedGroup::BrainpoolP384r1tls13 => Some(384),
+            NamedGroup::BrainpoolP512r1tls13 => Some(512),
             _ => None,
         }
     }
